@@ -103,6 +103,11 @@ func vfRunClean(c *vfCtx, sc vfCleanScenario) *vfCleanObs {
 	}
 	vfWriteModelFiles(dir, m)
 	for n, v := range sc.Other {
+		if strings.HasPrefix(n, "../") {
+			// a file NEXT TO the snapshot directory (e.g. a Go source file named after a snapshot file)
+			os.WriteFile(filepath.Join(root, strings.TrimPrefix(n, "../")), []byte(v), 0o644)
+			continue
+		}
 		os.WriteFile(filepath.Join(dir, n), []byte(v), 0o644)
 	}
 	for n, v := range sc.Append {
